@@ -4,19 +4,19 @@ import json
 ALL_DATA = ('{"absent", "null", "empty", "hex", "esc", "num", "numstr", "float", "neg", "list0", "list1e", "list2e", '
             '"list", "dict0", "nested", "call", "patch"}')
 # descriptor spaces: (A) textual forms of the fields, (B) data payloads x presence of optional fields
-FORMS_Q = {"ValueOpts": '{"absent", "a_lz", "icx_up"}', "NidOpts": '{"absent", "1"}',
-           "NonceOpts": '{"absent", "null", "a_up"}', "StepOpts": '{"1f4", "1f4_up"}', "TsOpts": '{"icx"}',
+FORMS_Q = {"ValueOpts": '{"absent", "0", "a_lz", "icx_up"}', "NidOpts": '{"absent", "0", "1"}',
+           "NonceOpts": '{"absent", "null", "0", "a_up"}', "StepOpts": '{"1f4", "1f4_up"}', "TsOpts": '{"icx"}',
            "FromOpts": '{"canon", "upper"}', "ToOpts": '{"canon", "noprefix", "cx"}', "DataOpts": '{"absent"}',
            "DTypeOpts": '{"absent"}', "MemoOpts": "{FALSE, TRUE}", "HashOpts": "{FALSE}"}
-FORMS_T = {"ValueOpts": '{"absent", "null", "0_lz", "a_lzup", "icx_up"}', "NidOpts": '{"absent", "1", "a_lz"}',
-           "NonceOpts": '{"absent", "null", "a_up"}', "StepOpts": '{"1f4_up", "icx_lz"}',
+FORMS_T = {"ValueOpts": '{"absent", "null", "0", "0_lz", "a_lzup", "icx_up"}', "NidOpts": '{"absent", "0", "1", "a_lz"}',
+           "NonceOpts": '{"absent", "null", "0", "a_up"}', "StepOpts": '{"1f4_up", "icx_lz"}',
            "TsOpts": '{"icx", "icx_lz"}', "FromOpts": '{"canon", "upper", "noprefix"}',
            "ToOpts": '{"canon", "upper", "noprefix", "cx"}', "DataOpts": '{"absent"}',
            "DTypeOpts": '{"absent"}', "MemoOpts": "{FALSE, TRUE}", "HashOpts": "{FALSE}"}
-DATA_Q = {"ValueOpts": '{"absent", "a"}', "NidOpts": '{"1"}', "NonceOpts": '{"absent", "1"}', "StepOpts": '{"1f4"}',
+DATA_Q = {"ValueOpts": '{"absent", "0", "a"}', "NidOpts": '{"1"}', "NonceOpts": '{"absent", "1"}', "StepOpts": '{"1f4"}',
           "TsOpts": '{"icx"}', "FromOpts": '{"canon"}', "ToOpts": '{"canon"}', "DataOpts": ALL_DATA,
           "DTypeOpts": '{"absent", "message", "call", "patch"}', "MemoOpts": "{FALSE}", "HashOpts": "{FALSE, TRUE}"}
-DATA_T = {"ValueOpts": '{"absent", "icx"}', "NidOpts": '{"absent", "1"}', "NonceOpts": '{"absent", "1"}',
+DATA_T = {"ValueOpts": '{"absent", "0", "icx"}', "NidOpts": '{"absent", "1"}', "NonceOpts": '{"absent", "1"}',
           "StepOpts": '{"1f4"}', "TsOpts": '{"icx"}', "FromOpts": '{"canon"}', "ToOpts": '{"canon", "cx"}',
           "DataOpts": ALL_DATA, "DTypeOpts": '{"absent", "message", "call", "patch"}', "MemoOpts": "{FALSE, TRUE}",
           "HashOpts": "{FALSE, TRUE}"}
